@@ -56,3 +56,21 @@ Theorem C05_expansion_numbers_operations_consecutively : forall s bp cl co out c
   build s bp cl co = (out, cl', co') -> out_numbers out = seq (S co) (count_ops bp) /\ co' = co + count_ops bp.
 Proof. exact build_numbers. Qed.
 Print Assumptions C05_expansion_numbers_operations_consecutively.
+
+(* label numbers carry no meaning: pseudo code whose labels are renamed by a function that is injective on the labels
+   that occur has the same control-flow graph, node for node, and the same routine entries (Comp/RenameSem.v) *)
+From ES Require Import Ssb.Cfg Comp.Passes Comp.PopSem Comp.RenameSem Comp.ExpandSame.
+
+Theorem C05_label_numbers_carry_no_meaning : forall f rs,
+  inj_on f (flat_map pop_labels (concat rs)) ->
+  cfg_of_pops (rename_prog f rs) = cfg_of_pops rs /\ pop_entries (rename_prog f rs) = pop_entries rs.
+Proof. exact rename_same_cfg. Qed.
+Print Assumptions C05_label_numbers_carry_no_meaning.
+
+(* hence every expansion of a macro with the same arguments is the same code: wherever two expansions are built -
+   whatever the label counter and the operation counter say at the time - their graphs are equal node for node *)
+Theorem C05_all_expansions_are_the_same_code : forall s bp cl1 co1 cl2 co2 out1 out2 a1 b1 a2 b2,
+  build s bp cl1 co1 = (out1, a1, b1) -> build s bp cl2 co2 = (out2, a2, b2) ->
+  cfg_of_pops [map pop_of_oitem out1] = cfg_of_pops [map pop_of_oitem out2].
+Proof. exact expansions_are_the_same_code. Qed.
+Print Assumptions C05_all_expansions_are_the_same_code.
